@@ -155,29 +155,41 @@ Definition pop (r : ptr) : M ptr :=
 Definition next_of (r : ptr) : M ptr := get_next r.
 Definition prev_of (r : ptr) : M ptr := get_prev r.
 
-(* the loop of At; [back] selects Prev instead of Next; the budget is the heap size + 1 *)
-Fixpoint at_loop (fuel : nat) (back : bool) (r cur : ptr) (n : Z) : M ptr :=
+(* the loop of At; [back] selects Prev instead of Next, [step] is +1 or -1: the offset is counted
+   toward zero and never negated; the budget is the heap size + 1.  [norm] is applied to the new
+   counter value: the identity in the model proper, 64-bit two's-complement wrap-around in the
+   machine-int variant below. *)
+Fixpoint at_loop_gen (norm : Z -> Z) (fuel : nat) (back : bool) (step : Z) (r cur : ptr) (n : Z) : M ptr :=
   match fuel with
   | O => if at_more n then out_of_fuel else ret cur
   | S f =>
     if at_more n then
       cur' <- (if back then prev_of cur else next_of cur) ;;
       if at_wrapped (enc cur') (enc r) then ret None
-      else at_loop f back r cur' (at_dec n)
+      else at_loop_gen norm f back step r cur' (norm (at_dec n step))     (* n -= step *)
     else ret cur
   end.
 
-Definition at_ (r : ptr) (n : Z) : M ptr :=
+Definition at_gen (norm : Z -> Z) (r : ptr) (n : Z) : M ptr :=
   if at_nil (enc r) znil then ret None
   else
     sz <- heap_size ;;
-    if at_neg n then at_loop (S sz) true r r (at_negate n)
-    else at_loop (S sz) false r r n.
+    if at_neg n then at_loop_gen norm (S sz) true at_step_back r r n
+    else at_loop_gen norm (S sz) false at_step_fwd r r n.
 
-Definition peek (r : ptr) (n : Z) : M (T * bool) :=
-  cur <- at_ r n ;;
+Definition at_loop := at_loop_gen (fun z => z).
+Definition at_ (r : ptr) (n : Z) : M ptr := at_gen (fun z => z) r n.
+
+(* the same code on 64-bit ints: every new counter value wraps around modulo 2^64 *)
+Definition wrap64 (z : Z) : Z := ((z + 2 ^ 63) mod 2 ^ 64 - 2 ^ 63)%Z.
+Definition at64 (r : ptr) (n : Z) : M ptr := at_gen wrap64 r n.
+
+Definition peek_gen (norm : Z -> Z) (r : ptr) (n : Z) : M (T * bool) :=
+  cur <- at_gen norm r n ;;
   if peek_nil (enc cur) znil then ret (zero, false)
   else v <- get_val cur ;; ret (v, true).
+Definition peek (r : ptr) (n : Z) : M (T * bool) := peek_gen (fun z => z) r n.
+Definition peek64 (r : ptr) (n : Z) : M (T * bool) := peek_gen wrap64 r n.
 
 (* scan, with the callback as a heap-passing function over an accumulator *)
 Fixpoint scan_loop {A} (fuel : nat) (r : ptr) (f : A -> ptr -> M (A * bool)) (cur : ptr) (acc : A) : M A :=
@@ -276,7 +288,7 @@ Arguments load {T}. Arguments store {T}.
 Arguments get_next {T}. Arguments get_prev {T}. Arguments get_val {T}.
 Arguments set_next {T}. Arguments set_prev {T}. Arguments set_val {T}.
 Arguments of_loop {T}. Arguments join {T}. Arguments pop {T}. Arguments next_of {T}. Arguments prev_of {T}.
-Arguments at_loop {T}. Arguments at_ {T}. Arguments scan_loop {T A}. Arguments scan {T A}.
+Arguments at_loop_gen {T}. Arguments at_gen {T}. Arguments at_loop {T}. Arguments at_ {T}. Arguments at64 {T}. Arguments scan_loop {T A}. Arguments scan {T A}.
 Arguments each {T}. Arguments len {T}. Arguments is_empty {T}.
 Arguments ONew {T}. Arguments OOf {T}. Arguments OJoin {T}. Arguments OPop {T}. Arguments ONext {T}.
 Arguments OPrev {T}. Arguments OAt {T}. Arguments OPeek {T}. Arguments OLen {T}. Arguments OEach {T}.
